@@ -15,6 +15,8 @@
 # C10  in every concrete state hash is a function of the (key,value) set alone (grouped
 #      across the whole BFS), copy / assign-into-nonempty / two rebuilds in other insertion
 #      orders are eq, cmp == 0 and hash the same; with two=1 swap(A,B) exchanges.
+# Mixed sizes: keys=int vals=blob (8/20 bytes, plain struct, every byte of every binding compared),
+#      keys=int vals=probe (8/24), keys=probe vals=int (24/8), keys=str vals=probe, keys=probe vals=blob.
 # C12  failing operations as self-loops in every state: get/set/rem/mem with a wrong-typed
 #      key (ValueError|TypeError), set with a wrong-typed value, NULL key / NULL value
 #      (ValueError), rem of an absent key (KeyError), resize(1|len|len+7) (if it raises:
@@ -29,6 +31,13 @@ def T(name, variant, *args, **kw):
 PARTS = {
   'C05': {
     'quick': [
+      # Probe on one side only / value types of another size than the key type
+      T('strkey-probeval6x2', 'base', 'prop=C05', 'keys=str', 'vals=probe', 'nkeys=6', 'nvals=2'),
+      T('probekey-intval8', 'base', 'prop=C05', 'keys=probe', 'vals=int', 'nkeys=8', 'nvals=1', 'alias=1'),
+      T('probekey-intval5x2-asan', 'asan', 'prop=C05', 'keys=probe', 'vals=int', 'nkeys=5', 'nvals=2', 'alias=1'),
+      T('probekey-blobval6x2', 'base', 'prop=C05', 'keys=probe', 'vals=blob', 'nkeys=6', 'nvals=2', 'alias=1'),
+      T('intkey-probeval-two4', 'base', 'prop=C05', 'keys=int', 'vals=probe', 'two=1', 'nkeys=4', 'nvals=1'),
+      T('probekey-intval-two4-asan', 'asan', 'prop=C05', 'keys=probe', 'vals=int', 'two=1', 'nkeys=4', 'nvals=1'),
       T('probe10', 'base', 'prop=C05', 'keys=probe', 'vals=probe', 'nkeys=10', 'nvals=1'),
       T('probe6x2', 'base', 'prop=C05', 'keys=probe', 'vals=probe', 'nkeys=6', 'nvals=2', 'alias=1'),
       T('probe-two6', 'base', 'prop=C05', 'keys=probe', 'vals=probe', 'two=1', 'nkeys=6', 'nvals=1'),
@@ -39,6 +48,12 @@ PARTS = {
       T('intkey-probeval6', 'base', 'prop=C05', 'keys=int', 'vals=probe', 'nkeys=6', 'nvals=2'),
     ],
     'thorough': [
+      T('strkey-probeval8x2', 'base', 'prop=C05', 'keys=str', 'vals=probe', 'nkeys=8', 'nvals=2'),
+      T('probekey-intval11', 'base', 'prop=C05', 'keys=probe', 'vals=int', 'nkeys=11', 'nvals=1', 'alias=1'),
+      T('probekey-intval7x2-asan', 'asan', 'prop=C05', 'keys=probe', 'vals=int', 'nkeys=7', 'nvals=2', 'alias=1'),
+      T('probekey-blobval8x2', 'base', 'prop=C05', 'keys=probe', 'vals=blob', 'nkeys=8', 'nvals=2', 'alias=1'),
+      T('intkey-probeval-two6', 'base', 'prop=C05', 'keys=int', 'vals=probe', 'two=1', 'nkeys=6', 'nvals=1'),
+      T('probekey-intval-two5-asan', 'asan', 'prop=C05', 'keys=probe', 'vals=int', 'two=1', 'nkeys=5', 'nvals=1'),
       T('probe11', 'base', 'prop=C05', 'keys=probe', 'vals=probe', 'nkeys=11', 'nvals=1'),
       T('probe8x2', 'base', 'prop=C05', 'keys=probe', 'vals=probe', 'nkeys=8', 'nvals=2', 'alias=1'),
       T('probe-two7', 'base', 'prop=C05', 'keys=probe', 'vals=probe', 'two=1', 'nkeys=7', 'nvals=1'),
@@ -50,12 +65,14 @@ PARTS = {
   },
   'C09': {
     'quick': [
+      T('pairs-int-blob4x2', 'base', 'prop=C09', 'keys=int', 'vals=blob', 'nkeys=4', 'nvals=2'),
       T('pairs-int3x2', 'base', 'prop=C09', 'keys=int', 'nkeys=3', 'nvals=2'),
       T('pairs-int5x2', 'base', 'prop=C09', 'keys=int', 'nkeys=5', 'nvals=2'),
       T('pairs-str4x2', 'base', 'prop=C09', 'keys=str', 'nkeys=4', 'nvals=2'),
       T('pairs-int4x2-asan', 'asan', 'prop=C09', 'keys=int', 'nkeys=4', 'nvals=2'),
     ],
     'thorough': [
+      T('pairs-int-blob5x2', 'base', 'prop=C09', 'keys=int', 'vals=blob', 'nkeys=5', 'nvals=2'),
       T('pairs-int3x2', 'base', 'prop=C09', 'keys=int', 'nkeys=3', 'nvals=2'),
       T('pairs-int6x2', 'base', 'prop=C09', 'keys=int', 'nkeys=6', 'nvals=2'),
       T('pairs-int9', 'base', 'prop=C09', 'keys=int', 'nkeys=9', 'nvals=1'),
@@ -65,6 +82,13 @@ PARTS = {
   },
   'C10': {
     'quick': [
+      # mixed key/value sizes: eq / hash / copy / assign / rebuild must survive every removal and copy path
+      T('eqhash-int-blob6x2', 'base', 'prop=C10', 'keys=int', 'vals=blob', 'nkeys=6', 'nvals=2', 'alias=1'),
+      T('eqhash-int-blob9', 'base', 'prop=C10', 'keys=int', 'vals=blob', 'nkeys=9', 'nvals=1'),
+      T('eqhash-int-blob5x2-asan', 'asan', 'prop=C10', 'keys=int', 'vals=blob', 'nkeys=5', 'nvals=2', 'alias=1'),
+      T('eqhash-probe-int6x2', 'base', 'prop=C10', 'keys=probe', 'vals=int', 'nkeys=6', 'nvals=2'),
+      T('eqhash-str-probe5x2-asan', 'asan', 'prop=C10', 'keys=str', 'vals=probe', 'nkeys=5', 'nvals=2'),
+      T('eqhash-two-int-blob3x2', 'base', 'prop=C10', 'keys=int', 'vals=blob', 'two=1', 'nkeys=3', 'nvals=2'),
       T('eqhash-int6x2', 'base', 'prop=C10', 'keys=int', 'nkeys=6', 'nvals=2'),
       T('eqhash-int10', 'base', 'prop=C10', 'keys=int', 'nkeys=10', 'nvals=1'),
       T('eqhash-two-int5', 'base', 'prop=C10', 'keys=int', 'two=1', 'nkeys=5', 'nvals=1'),
@@ -74,6 +98,12 @@ PARTS = {
       T('eqhash-int5x2-asan', 'asan', 'prop=C10', 'keys=int', 'nkeys=5', 'nvals=2'),
     ],
     'thorough': [
+      T('eqhash-int-blob8x2', 'base', 'prop=C10', 'keys=int', 'vals=blob', 'nkeys=8', 'nvals=2', 'alias=1'),
+      T('eqhash-int-blob11', 'base', 'prop=C10', 'keys=int', 'vals=blob', 'nkeys=11', 'nvals=1'),
+      T('eqhash-int-blob6x2-asan', 'asan', 'prop=C10', 'keys=int', 'vals=blob', 'nkeys=6', 'nvals=2', 'alias=1'),
+      T('eqhash-probe-int8x2', 'base', 'prop=C10', 'keys=probe', 'vals=int', 'nkeys=8', 'nvals=2'),
+      T('eqhash-str-probe6x2-asan', 'asan', 'prop=C10', 'keys=str', 'vals=probe', 'nkeys=6', 'nvals=2'),
+      T('eqhash-two-int-blob4x2', 'base', 'prop=C10', 'keys=int', 'vals=blob', 'two=1', 'nkeys=4', 'nvals=2'),
       T('eqhash-int8x2', 'base', 'prop=C10', 'keys=int', 'nkeys=8', 'nvals=2'),
       T('eqhash-int11', 'base', 'prop=C10', 'keys=int', 'nkeys=11', 'nvals=1'),
       T('eqhash-str7x2', 'base', 'prop=C10', 'keys=str', 'nkeys=7', 'nvals=2'),
@@ -84,6 +114,8 @@ PARTS = {
   },
   'C12': {
     'quick': [
+      T('fail-int-blob6x2', 'base', 'prop=C12', 'keys=int', 'vals=blob', 'nkeys=6', 'nvals=2'),
+      T('fail-probe-int5x2-asan', 'asan', 'prop=C12', 'keys=probe', 'vals=int', 'nkeys=5', 'nvals=2'),
       T('fail-int6x2', 'base', 'prop=C12', 'keys=int', 'nkeys=6', 'nvals=2'),
       T('fail-int10', 'base', 'prop=C12', 'keys=int', 'nkeys=10', 'nvals=1'),
       T('fail-str6x2', 'base', 'prop=C12', 'keys=str', 'nkeys=6', 'nvals=2'),
@@ -92,6 +124,8 @@ PARTS = {
       T('fail-str5-asan', 'asan', 'prop=C12', 'keys=str', 'nkeys=5', 'nvals=1'),
     ],
     'thorough': [
+      T('fail-int-blob8x2', 'base', 'prop=C12', 'keys=int', 'vals=blob', 'nkeys=8', 'nvals=2'),
+      T('fail-probe-int6x2-asan', 'asan', 'prop=C12', 'keys=probe', 'vals=int', 'nkeys=6', 'nvals=2'),
       T('fail-int8x2', 'base', 'prop=C12', 'keys=int', 'nkeys=8', 'nvals=2'),
       T('fail-int11', 'base', 'prop=C12', 'keys=int', 'nkeys=11', 'nvals=1'),
       T('fail-str7x2', 'base', 'prop=C12', 'keys=str', 'nkeys=7', 'nvals=2'),
